@@ -1400,7 +1400,7 @@ class URL:
             if join_path[0] == "/":
                 path = join_path
             elif not orig_path:
-                path = f"/{join_path}"
+                path = f"/{join_path}" if self._netloc else join_path
             elif orig_path[-1] == "/":
                 path = f"{orig_path}{join_path}"
             else:
